@@ -138,7 +138,7 @@ func (h *HyperLogLog) WriteTo(stream io.Writer) (int64, error) {
 	if err != nil {
 		return 0, err
 	}
-	return int64((h.numRegisters + 3) * uint64(binary.Size(uint64(0)))), nil
+	return int64(3*binary.Size(uint64(0)) + len(h.registers)), nil
 }
 
 // ReadFrom reads the BloomFilter from the specified _stream_ and returns the
@@ -168,5 +168,5 @@ func (h *HyperLogLog) ReadFrom(stream io.Reader) (int64, error) {
 		return 0, err
 	}
 	h.registers = registers
-	return int64((h.numRegisters + 3) * uint64(binary.Size(uint64(0)))), nil
+	return int64(3*binary.Size(uint64(0)) + len(h.registers)), nil
 }
